@@ -7,6 +7,7 @@ import BppModel.Drive.C07
 import BppModel.Drive.C08
 import BppModel.Drive.C11
 import BppModel.Drive.C12
+import BppModel.Drive.C13
 import BppModel.Drive.C14
 import BppModel.Drive.C15
 import BppModel.Drive.C17
@@ -25,6 +26,7 @@ def main (args : List String) : IO UInt32 := do
   | ["C08"] => Proto.run Drive.C08.machine; return 0
   | ["C11"] => Proto.run Drive.C11.machine; return 0
   | ["C12"] => Proto.run Drive.C12.machine; return 0
+  | ["C13"] => Proto.run Drive.C13.machine; return 0
   | ["C14"] => Proto.run Drive.C14.machine; return 0
   | ["C15"] => Proto.run Drive.C15.machine; return 0
   | ["C17"] => Proto.run Drive.C17.machine; return 0
